@@ -557,7 +557,7 @@ impl Check for C11 {
         ]
     }
     fn units(&self, tier: Tier) -> Vec<Unit> {
-        vec![Unit::gen("syntax", 16, tier.pick(6000, 120_000)), Unit::gen("unrep", 8, tier.pick(150, 3000)), Unit::gen("wfault", 16, tier.pick(500, 10_000))]
+        vec![Unit::gen("syntax", 16, tier.pick(25_000, 200_000)), Unit::gen("unrep", 8, tier.pick(500, 5000)), Unit::gen("wfault", 16, tier.pick(2000, 20_000))]
     }
     fn required_classes(&self, _tier: Tier) -> Vec<&'static str> {
         vec![
